@@ -28,7 +28,7 @@ def gen(rng):
             ops.append(("clear",))
         else:
             ops.append(("export",))
-    return {"est": est, "fpr": rng.choice([0.3, 0.1, 0.05, 0.01]), "where": rng.choice(["rel", "sub", "abs"]), "ops": ops, "strat": rng.choice(["fnv", "fnv", "fnv", "md5", "custom"])}
+    return {"est": est, "fpr": rng.choice([0.3, 0.1, 0.05, 0.01]), "where": rng.choice(["rel", "sub", "abs", "home"]), "ops": ops, "strat": rng.choice(["fnv", "fnv", "fnv", "md5", "custom"])}
 
 
 def _wellformed(data, est, fpr, completed_keys, count_options, what, fn=None):
@@ -52,6 +52,7 @@ def check(case):
     from probables import BloomFilter, BloomFilterOnDisk
 
     cwd = os.getcwd()
+    old_home = os.environ.get("HOME")
     fn = strategy(case.get("strat", "fnv"))[0]
     with core.Scratch() as tmp:
         try:
@@ -59,8 +60,10 @@ def check(case):
             os.makedirs(os.path.join(work, "sub"))
             os.makedirs(os.path.join(tmp, "other"))
             os.chdir(work)
-            rel = {"rel": "f.blm", "sub": os.path.join("sub", "f.blm"), "abs": os.path.join(work, "f.blm")}[case["where"]]
-            path = os.path.abspath(rel)
+            rel = {"rel": "f.blm", "sub": os.path.join("sub", "f.blm"), "abs": os.path.join(work, "f.blm"), "home": os.path.join("~", "f.blm")}[case["where"]]
+            if case["where"] == "home":
+                os.environ["HOME"] = work  # the file is named through the user's home directory
+            path = os.path.abspath(os.path.expanduser(rel))
             if len(case["ops"]) % 3 == 0:
                 with open(path, "wb") as fh:  # left over from an earlier, bigger filter
                     fh.write(b"\xff" * 4099)
@@ -129,6 +132,8 @@ def check(case):
                         arg = os.path.relpath(path, work)
                     else:
                         arg = path
+                    if case["where"] == "home" and mode != "rel":
+                        arg = rel  # reopened through the same spelling it was created with
                     res = core.call(BloomFilterOnDisk, arg, hash_function=fn)
                     os.chdir(work)
                     if res[0] == "err":
@@ -145,6 +150,11 @@ def check(case):
                     return "file after the final close differs from the in-memory export of the same history"
         finally:
             os.chdir(cwd)
+            if case["where"] == "home":
+                if old_home is None:
+                    os.environ.pop("HOME", None)
+                else:
+                    os.environ["HOME"] = old_home
     return None
 
 
